@@ -40,7 +40,7 @@ func (c18) Assumptions() []string {
 	return []string{"upstream and downstream are local repositories (no network transport)", "ordinary cases invoke internal/propagation with explicit directives; the policy-driven wrapper (PropagateChangesFromUpstreamRepositories, which clones the upstream and synthesises controller directives) runs in the controller scenario"}
 }
 
-var oddNames = []string{"a", "b", "dir/c", "sp ace", "dir/sp ace.txt", "tab\tname", "qu\"ote", "back\\slash", "ünï.txt", "日本/語", "st*r", "q?m", "[br]acket", "vendorx", "vendor-extra/x", "metadata/root.json", "metadata/targets.json", "sub/inner/deep.txt", "sub/f"}
+var oddNames = []string{"a", "b", "dir/c", "sp ace", " lead", "trail ", "dir/\tt", "dir/sp ace.txt", "tab\tname", "qu\"ote", "back\\slash", "ünï.txt", "日本/語", "st*r", "q?m", "[br]acket", "vendorx", "vendor-extra/x", "metadata/root.json", "metadata/targets.json", "sub/inner/deep.txt", "sub/f"}
 var plainNames = []string{"a", "b", "dir/c", "metadata/root.json", "metadata/targets.json", "sub/inner/deep.txt", "sub/f", "vendorx", "vendor-extra/x"}
 
 func (d c18) Generate(r *core.Rand, tier string, idx uint64) *core.Case {
